@@ -14,8 +14,8 @@ pub static PROP: PropDef = PropDef {
     builds: opt_and_dbg,
     max_tape: 48,
     cases: |t| match t {
-        Tier::Quick => 20_000,
-        Tier::Thorough => 400_000,
+        Tier::Quick => 200_000,
+        Tier::Thorough => 3_000_000,
     },
     fixed,
     check,
